@@ -389,7 +389,7 @@ func outcome(dec uint32) string {
 }
 
 func decideStream(sum *Summary, model *vd.Model, n int, seed int64) {
-	sum.Rule = "seeded policies over the probe syscalls (getpid, getppid, getuid, geteuid, getgid, getegid, gettid, getpgrp, sched_yield: they ignore their registers) with conditions on all six arguments, several groups, actions allow/errno/kill_process/log, optionally default errno/kill_process behind an allow-group of the whole remaining table (programs > 255 instructions); loaded through the real LoadFilter in a child (with/without thread-sync, log flag, no_new_privs); each probe event = raw syscall with arbitrary 64-bit registers; observed ok / EPERM / death by SIGSYS compared with Spec.decision; distinct by (policy, event); non-trivial = the specification's answer is not the default allow"
+	sum.Rule = "seeded policies over the probe syscalls (getpid, getppid, getuid, geteuid, getgid, getegid, gettid, getpgrp, sched_yield: they ignore their registers) with conditions on all six arguments, several groups, actions allow/errno/kill_process/log/trace (no tracer: ENOSYS), entries whose conditions all hold for every value, prefix and extension alternatives of one syscall, optionally default errno/kill_process behind an allow-group of the whole remaining table (programs > 255 instructions); loaded through the real LoadFilter in a child (with/without thread-sync, log flag, no_new_privs); each probe event = raw syscall with arbitrary 64-bit registers; observed ok / EPERM / death by SIGSYS compared with Spec.decision — in one case out of three a second policy is loaded on top of the first and the answers are compared with Chain.chain of the two decisions; distinct by (policy, event); non-trivial = the specification's answer is not the default allow"
 	rng := rand.New(rand.NewSource(seed))
 	seen := map[string]bool{}
 	for i := 0; i < n; i++ {
